@@ -2,6 +2,8 @@ package main
 
 import (
 	"fmt"
+	"strconv"
+	"sync"
 	"time"
 
 	"go.lstv.dev/util/date"
@@ -46,6 +48,84 @@ func aliasRun(c *Ctx, key string, calls []aliasCall) {
 		}
 	}
 	c.NT(int64(len(calls)))
+}
+
+// Concurrent use. Every other oracle of the value types runs on one goroutine, so state that lives in a package
+// variable only *during* a call (a scratch buffer that is copied out before returning) is invisible to them and to
+// aliasRun. concRun makes the same judged calls from 8 goroutines at once, each goroutine on its own values, and
+// compares every result with the expectation computed beforehand (independently of the library). What is judged is
+// deterministic (results only); a job whose sequential result already differs is left to the sequential oracles.
+type concJob struct {
+	name, want string
+	f          func() string
+}
+
+const concGoroutines = 8
+
+func concRun(c *Ctx, key string, jobs []concJob, rounds int) {
+	var ok []concJob
+	for _, j := range jobs {
+		c.Check("")
+		if got := concCall(j); got == j.want {
+			ok = append(ok, j)
+		}
+	}
+	if len(ok) != len(jobs) {
+		c.Note("%s: %d of %d jobs already differ sequentially (left to the sequential oracles)", key, len(jobs)-len(ok), len(jobs))
+	}
+	if len(ok) < concGoroutines {
+		return
+	}
+	type bad struct{ name, got, want string }
+	var mu sync.Mutex
+	var bads []bad
+	nbad := 0
+	var wg sync.WaitGroup
+	for g := 0; g < concGoroutines; g++ {
+		wg.Add(1)
+		go func(g int) {
+			defer wg.Done()
+			for r := 0; r < rounds; r++ {
+				for i := g; i < len(ok); i += concGoroutines {
+					if got := concCall(ok[i]); got != ok[i].want {
+						mu.Lock()
+						nbad++
+						n := nbad
+						if len(bads) < 3 {
+							bads = append(bads, bad{ok[i].name, got, ok[i].want})
+						}
+						mu.Unlock()
+						if n > 100 {
+							return
+						}
+					}
+				}
+			}
+		}(g)
+	}
+	wg.Wait()
+	for _, b := range bads {
+		c.Fail(key, "", "%s gave %q while %d goroutines were working on other values (sequentially and expected: %q); %d wrong results in all", b.name, b.got, concGoroutines, b.want, nbad)
+	}
+	c.NT(int64(len(ok)))
+}
+
+func concCall(j concJob) (out string) {
+	defer func() {
+		if r := recover(); r != nil {
+			out = fmt.Sprintf("panic: %v", r)
+		}
+	}()
+	return j.f()
+}
+
+// concSizes: sizes of every digit count and unit, different for every goroutine slot.
+func concSizes() []uint64 {
+	out := []uint64{0, 1, 1000, 1023, 1024, 1234567, 98765 << 10, 1<<64 - 1, 7 << 40, 55555 << 20, 3, 1 << 60, 15 << 60, 999999999999, 123456789 << 30, 1<<63 + 1}
+	for k := uint(0); k < 64; k += 3 {
+		out = append(out, (uint64(2*k+1)*0x9E3779B97F4A7C15)>>k|1, uint64(1)<<k, (uint64(1)<<k)*999)
+	}
+	return out
 }
 
 func init() {
@@ -193,6 +273,164 @@ func init() {
 			}
 			c.Op(fmt.Sprintf("uu.paths %d %d", hi, lo))
 		}
+	})
+	// ---- concurrent use (see concRun)
+	wrap("C13", func(c *Ctx) {
+		var jobs []concJob
+		for _, v := range concSizes() {
+			s := size.Size(v)
+			dec, unit := szShortenWant(v)
+			jobs = append(jobs,
+				concJob{fmt.Sprintf("Size(%d).String()", v), dec + unit, func() string { return s.String() }},
+				concJob{fmt.Sprintf("Size(%d).PrettyString()", v), szGroup3(dec, " ") + " " + unit, func() string { return s.PrettyString() }},
+				concJob{fmt.Sprintf("Size(%d).PrettyHTML()", v), szGroup3(dec, "&nbsp;") + "&nbsp;" + unit, func() string { return string(s.PrettyHTML()) }},
+				concJob{fmt.Sprintf("size.DefaultFormatter(\"x\", %d, FormatPretty)", v), "x" + szGroup3(dec, " ") + " " + unit, func() string {
+					b, _ := size.DefaultFormatter(append(make([]byte, 0, 8), 'x'), s, size.FormatPretty)
+					return string(b)
+				}},
+				concJob{fmt.Sprintf("Size(%d).Shorten()", v), dec + " " + unit, func() string { n, u := s.Shorten(); return strconv.FormatUint(n, 10) + " " + u }})
+		}
+		concRun(c, "C13.concurrent", jobs, 400)
+	})
+	wrap("C04", func(c *Ctx) {
+		for cfg := 0; cfg < 8; cfg++ {
+			func() {
+				defer szSetMarshalCfg(cfg)() // package globals: fixed while the goroutines run
+				var jobs []concJob
+				for _, v := range concSizes() {
+					s := size.Size(v)
+					want := strconv.FormatUint(v, 10)
+					jobs = append(jobs,
+						concJob{fmt.Sprintf("Size(%d) MarshalJSON -> UnmarshalJSON, cfg %d", v, cfg), want, func() string {
+							j, err := s.MarshalJSON()
+							if err != nil {
+								return "marshal: " + err.Error()
+							}
+							var back size.Size
+							if err = back.UnmarshalJSON(j); err != nil {
+								return string(j) + ": " + err.Error()
+							}
+							if back != s {
+								return string(j) + " -> " + strconv.FormatUint(uint64(back), 10)
+							}
+							return want
+						}},
+						concJob{fmt.Sprintf("Size(%d) MarshalText -> UnmarshalText, cfg %d", v, cfg), want, func() string {
+							t, err := s.MarshalText()
+							if err != nil {
+								return "marshal: " + err.Error()
+							}
+							var back size.Size
+							if err = back.UnmarshalText(t); err != nil {
+								return string(t) + ": " + err.Error()
+							}
+							if back != s {
+								return string(t) + " -> " + strconv.FormatUint(uint64(back), 10)
+							}
+							return want
+						}},
+						concJob{fmt.Sprintf("Size(%d) PrettyString -> DefaultParser, cfg %d", v, cfg), want, func() string {
+							t := s.PrettyString()
+							back, err := size.DefaultParser(t, 0)
+							if err != nil || back != s {
+								return fmt.Sprintf("%s -> %d %v", t, uint64(back), err)
+							}
+							return want
+						}})
+				}
+				concRun(c, "C04.concurrent", jobs, 60)
+			}()
+		}
+	})
+	wrap("C03", func(c *Ctx) {
+		var jobs []concJob
+		for i, v := range []sem.Ver{sem.New(1, 2, 3), sem.New(0, 0, 0, "alpha.1"), sem.New(1<<64-1, 0, 9, "rc-1", "b.77"), sem.New(10, 20, 30, "", "x"), sem.New(7, 0, 1, "0.a.1"),
+			sem.New(123456789, 987654321, 5, "SNAPSHOT", "exp.sha.5114f85"), sem.New(0, 1, 0, "-"), sem.New(2, 2, 2, "", "001"), sem.New(1<<63, 1, 1<<32, "x-y.z"),
+			sem.New(3, 14, 15, "beta.11", "b"), sem.New(99, 99, 99), sem.New(4, 5, 6, "rc.1", "7"), sem.New(1, 0, 0, "a.b.c.d.e.f"), sem.New(5, 5, 5, "1"), sem.New(8, 0, 0, "", "z"), sem.New(6, 6, 6, "q-1", "-")} {
+			v, text := v, svText(v)
+			jobs = append(jobs,
+				concJob{"Ver.String " + text, text, func() string { return v.String() }},
+				concJob{"Ver.StringTag " + text, "v" + text, func() string { return v.StringTag() }},
+				concJob{"ParseVersion -> MarshalText " + text, text, func() string {
+					p, err := sem.ParseVersion(text)
+					if err != nil || p != v {
+						return fmt.Sprintf("%+v %v", p, err)
+					}
+					b, _ := p.MarshalText()
+					return string(b)
+				}},
+				concJob{"ParseTag([]byte) " + text, text, func() string {
+					p, err := sem.ParseTag([]byte("v" + text))
+					if err != nil {
+						return err.Error()
+					}
+					return svText(p)
+				}})
+			_ = i
+		}
+		concRun(c, "C03.concurrent", jobs, 150)
+	})
+	wrap("C01", func(c *Ctx) {
+		var jobs []concJob
+		for i := 0; i < 24; i++ {
+			y, m, d := ([]int{2024, 1, 9999, 0, 1999, 1600, 123, 4567}[i%8]+i)%10000, 1+i%12, 1+(i*5)%28
+			dt := date.New(y, time.Month(m), d)
+			text := digits(y, 4) + "-" + digits(m, 2) + "-" + digits(d, 2)
+			jobs = append(jobs,
+				concJob{"Date.String " + text, text, func() string { return dt.String() }},
+				concJob{"date.DefaultFormatter basic " + text, digits(y, 4) + digits(m, 2) + digits(d, 2), func() string {
+					b, _ := date.DefaultFormatter(nil, dt, date.FormatBasic)
+					return string(b)
+				}},
+				concJob{"date.DefaultParser " + text, text, func() string {
+					p, err := date.DefaultParser(text, 0)
+					if err != nil {
+						return err.Error()
+					}
+					py, pm, pd := p.Date()
+					return digits(py, 4) + "-" + digits(int(pm), 2) + "-" + digits(pd, 2)
+				}})
+		}
+		concRun(c, "C01.concurrent", jobs, 150)
+	})
+	wrap("C02", func(c *Ctx) {
+		var jobs []concJob
+		for i, n := range []uint64{1, 4, 9, 14, 40, 88, 90, 400, 444, 900, 1994, 2024, 3888, 3999, 4949, 12345, 49, 99, 499, 999, 1666, 2999, 3333, 7} {
+			n, fl := n, []int{0, 63, 64, 127}[i%4]
+			text := cxRomanFmt(n, fl)
+			jobs = append(jobs,
+				concJob{fmt.Sprintf("roman.DefaultFormatter(%d, %d)", n, fl), text, func() string {
+					b, _ := roman.DefaultFormatter(nil, roman.Number(n), roman.Format(fl))
+					return string(b)
+				}},
+				concJob{fmt.Sprintf("roman.DefaultParser(%q)", text), strconv.FormatUint(n, 10), func() string {
+					p, err := roman.DefaultParser([]byte(text), 0)
+					if err != nil {
+						return err.Error()
+					}
+					return strconv.FormatUint(uint64(p), 10)
+				}})
+		}
+		concRun(c, "C02.concurrent", jobs, 150)
+	})
+	wrap("C05", func(c *Ctx) {
+		var jobs []concJob
+		for i := uint64(1); i <= 24; i++ {
+			hi, lo := i*0x9E3779B97F4A7C15, ^(i * 0xBF58476D1CE4E5B9)
+			id := uu.ID{Higher: hi, Lower: lo}
+			text := cxUUText(hi, lo)
+			jobs = append(jobs,
+				concJob{"ID.String " + text, text, func() string { return id.String() }},
+				concJob{"ID.URN " + text, "urn:uuid:" + text, func() string { return id.URN() }},
+				concJob{"uu.DefaultParser " + text, text, func() string {
+					p, err := uu.DefaultParser([]byte(text), 0)
+					if err != nil {
+						return err.Error()
+					}
+					return cxUUText(p.Higher, p.Lower)
+				}})
+		}
+		concRun(c, "C05.concurrent", jobs, 150)
 	})
 	_ = time.January
 }
